@@ -639,7 +639,7 @@ func bufRandom(args []string) {
 		all := append([]BOp{start}, ops...)
 		countBuf(res, "random", init, all)
 		tw.Emit(map[string]any{"ev": "New", "sc": sc, "lim": lim, "bufs": init, "start": start, "rep": rep})
-		for i := range ops {
+		for i := -1; i < len(ops); i++ { // first observation: the span right after Start
 			got, p := runB(lim, init, all[:i+2], rep)
 			res.Executed++
 			if p != nil {
@@ -647,7 +647,11 @@ func bufRandom(args []string) {
 				break
 			}
 			sort.Slice(got.Attrs, func(a, b int) bool { return got.Attrs[a].K < got.Attrs[b].K })
-			tw.Emit(map[string]any{"ev": "Ops", "sc": sc, "ops": []BOp{ops[i]}, "obs": got})
+			step := []BOp{}
+			if i >= 0 {
+				step = append(step, ops[i])
+			}
+			tw.Emit(map[string]any{"ev": "Ops", "sc": sc, "ops": step, "obs": got})
 		}
 		res.Evaluations++
 		if sc < 1 {
